@@ -463,6 +463,22 @@ func (e *Env) call(x *Expr) Val {
 		return intVal(Ite(Ge(a, IntLit(0)), a, Neg(a)))
 	case "pow2":
 		return intVal(pow2Term(e.int(x.Args[0])))
+	case "call":
+		// value of a function-typed parameter applied to arguments: the same
+		// uninterpreted pure function the executor uses for the real calls (A4)
+		fv := e.eval(x.Args[0])
+		argT := []*Term{fv.T}
+		argS := []string{SInt}
+		for _, a := range x.Args[1:] {
+			t := e.int(a)
+			argT = append(argT, t)
+			argS = append(argS, SInt)
+		}
+		fname := fmt.Sprintf("callfv_%d_%s", len(argS), sanitize(strings.Join(argS, "_")+"_"+SInt))
+		if e.v != nil {
+			e.g.declareFun(e.v, fname, argS, SInt)
+		}
+		return intVal(App(fname, SInt, argT...))
 	case "sameslice":
 		a := e.eval(x.Args[0])
 		b := e.eval(x.Args[1])
